@@ -10,6 +10,7 @@ import faulthandler
 import multiprocessing
 import os
 import pickle
+import select
 import selectors
 import signal
 import struct
@@ -32,7 +33,57 @@ def default_workers():
     return max(1, min(16, os.cpu_count() or 1))
 
 
-def _child(fn, jobs, counter, wfd, per_job_limit, init):
+def _isolated(fn, job, limit=None):
+    """Run fn(job) in a freshly forked grandchild: process-global state left behind by one job
+    (library caches, class defaults, registries) can never reach the next job, so a job's result
+    depends on nothing but its index and VERIF_SEED - whichever worker executes it."""
+    r, w = os.pipe()
+    pid = os.fork()
+    if pid == 0:
+        code = 0
+        try:
+            os.close(r)
+            if limit:
+                faulthandler.dump_traceback_later(limit, exit=True)
+            try:
+                res = ("ok", fn(job))
+            except BaseException as e:  # noqa: BLE001
+                res = ("err", f"{type(e).__name__}: {e}\n{traceback.format_exc()}")
+            with os.fdopen(w, "wb") as fh:
+                fh.write(pickle.dumps(res, protocol=pickle.HIGHEST_PROTOCOL))
+        except BaseException:
+            code = 1
+        finally:
+            os._exit(code)
+    os.close(w)
+    chunks = []
+    deadline = time.time() + (limit + 60.0 if limit else 1e9)
+    try:
+        while True:
+            remaining = deadline - time.time()
+            if remaining <= 0:
+                os.kill(pid, signal.SIGKILL)
+                os.waitpid(pid, 0)
+                raise RuntimeError(f"isolated job exceeded its wall limit of {limit} s and was killed")
+            ready, _, _ = select.select([r], [], [], min(remaining, 5.0))
+            if not ready:
+                continue
+            b = os.read(r, 1 << 20)
+            if not b:
+                break
+            chunks.append(b)
+    finally:
+        os.close(r)
+    _, status = os.waitpid(pid, 0)
+    if not chunks:
+        raise RuntimeError(f"isolated job died without a result (wait status {status}; see the child log for a stack dump)")
+    kind, val = pickle.loads(b"".join(chunks))
+    if kind == "err":
+        raise RuntimeError(val)
+    return val
+
+
+def _child(fn, jobs, counter, wfd, per_job_limit, init, isolate=True):
     try:
         # LAPACK/Fortran runtime chatter (xerbla) and faulthandler dumps go to a per-child log
         try:
@@ -54,9 +105,12 @@ def _child(fn, jobs, counter, wfd, per_job_limit, init):
             if i >= len(jobs):
                 break
             print(f"JOB {i} start pid={os.getpid()}", file=sys.stderr, flush=True)
-            faulthandler.dump_traceback_later(per_job_limit, exit=True)
+            if not isolate:
+                # (with isolation the watchdog is armed inside the forked job process: a watchdog
+                # thread alive at fork() time leaves its lock held in the child and deadlocks it)
+                faulthandler.dump_traceback_later(per_job_limit, exit=True)
             try:
-                res = ("ok", fn(jobs[i]))
+                res = ("ok", _isolated(fn, jobs[i], per_job_limit) if isolate else fn(jobs[i]))
             except BaseException as e:  # noqa: BLE001
                 res = ("err", f"{type(e).__name__}: {e}\n{traceback.format_exc()}")
             faulthandler.cancel_dump_traceback_later()
@@ -67,7 +121,7 @@ def _child(fn, jobs, counter, wfd, per_job_limit, init):
         os._exit(0)
 
 
-def run_jobs(fn, jobs, workers=None, wall_limit=3600.0, per_job_limit=900.0, init=None, on_result=None):
+def run_jobs(fn, jobs, workers=None, wall_limit=3600.0, per_job_limit=900.0, init=None, on_result=None, isolate=True):
     """Returns list of results in job order. Raises HarnessError on any
     harness-level failure (crashed/hung child, exception escaping fn)."""
     jobs = list(jobs)
@@ -94,7 +148,7 @@ def run_jobs(fn, jobs, workers=None, wall_limit=3600.0, per_job_limit=900.0, ini
                     os.close(other)
                 except OSError:
                     pass
-            _child(fn, jobs, counter, wfd, per_job_limit, init)
+            _child(fn, jobs, counter, wfd, per_job_limit, init, isolate)
         os.close(wfd)
         os.set_blocking(r, False)
         sel.register(r, selectors.EVENT_READ)
